@@ -19,7 +19,7 @@ LEVEL_NOTE = (
 TECHNIQUE = "property-based testing: Hypothesis random inputs vs brute-force/recursive ordered super-reconciliation oracle"
 DESIGN_REF = "DESIGN.md section 5 (C02), 4.3, 4.7"
 RULE = (
-    "Hypothesis cases: binary object tree (<=5 leaves), species tree (<=4 leaves), leaf assignment, <=4 families, each leaf a "
+    "Hypothesis cases: binary object tree (<=5 leaves; thorough <=7), species tree (<=4 leaves; thorough <=6), leaf assignment, <=4 families, each leaf a "
     "non-empty subset in a hidden global order (75%) or an arbitrary order (25%, possibly inconsistent), optional prescribed root "
     "order, coherent costs incl. sloss=0.  Checked: sreconcile_extended_spfs (ALL, ANY) cost == optimum over all mappings x root "
     "orders x labellings; sreconcile_base_spfs == optimum with the LCA mapping; empty result iff no root order exists; every "
@@ -36,6 +36,9 @@ FUZZ = {"thorough": {"runs": 20000, "max_time": 900}}
 
 
 def strategy(tier):
+    if tier == "thorough":
+        # beyond plain enumeration's comfort zone: the recursion oracle decides, cross-checked where enumeration still fits
+        return gen.rec_case(max_obj=7, max_sp=6, costs="coherent", labelled=True, max_fam=4, prescribed_root=True)
     return gen.rec_case(max_obj=5, max_sp=4, costs="coherent", labelled=True, max_fam=4, prescribed_root=True)
 
 
